@@ -6,6 +6,7 @@ package harness
 
 import (
 	"bufio"
+	"regexp"
 	"crypto/sha1"
 	"encoding/hex"
 	"encoding/json"
@@ -54,9 +55,12 @@ func (r *Rand) Range(lo, hi int) int { return lo + r.Intn(hi-lo+1) }
 // traceOn: BW_TRACE=1 makes the simulated runs record their event log.
 var traceOn = os.Getenv("BW_TRACE") == "1"
 
-// detHash hashes everything a run decided and observed.
+var volatileRe = regexp.MustCompile(`0x[0-9a-f]+|/_<[0-9a-f-]{36}>`)
+
+// detHash hashes everything a run decided and observed. Pointer values printed
+// into error texts and the random ids of blank nodes are canonicalised.
 func detHash(log []string, tape []uint32, extra ...string) string {
-	return hashStr(strings.Join(log, "\n") + fmt.Sprint(tape) + strings.Join(extra, "\n"))
+	return hashStr(strings.Join(log, "\n") + fmt.Sprint(tape) + volatileRe.ReplaceAllString(strings.Join(extra, "\n"), "X"))
 }
 
 func hashStr(s string) string {
@@ -231,6 +235,9 @@ func RunShard(t *testing.T) {
 		start, n := envInt("BW_START", 0), envInt("BW_MAXCASES", 64)
 		for idx := start; idx < start+n; idx++ {
 			c := h.Gen(caseRand(prop, seed, envInt("BW_SHARD", 0), idx), tier, idx%2 == 0)
+			if d := os.Getenv("BW_DUMPLOGDIR"); d != "" {
+				os.Setenv("BW_DUMPLOG", fmt.Sprintf("%s/%d.log", d, idx))
+			}
 			o := safeRun(h, t, c)
 			jr.line("D", fmt.Sprintf("%d %s %s %s", idx, o.Verdict, o.Class, o.Det))
 		}
